@@ -174,6 +174,24 @@ impl Handler for H14 {
             }
         }
         if let Request::Batch { statements, .. } = &*rq.request {
+            // every third batch: the node has meanwhile forgotten the statement that the connection prepared
+            // on the fly for this very batch (the plain-text statement with bound values)
+            let pk = statements.iter().find_map(|s| match s {
+                BatchStatement::Prepared { values, .. } => Self::pk_of(values),
+                _ => None,
+            });
+            if let Some(pk) = pk {
+                let first_time = self.t.seen.lock().unwrap().get(&pk).map(|v| v.iter().all(|s| s.kind != "BATCH")).unwrap_or(true);
+                if pk % 3 == 1 && first_time {
+                    for s in statements {
+                        if let BatchStatement::Prepared { id, .. } = s {
+                            if *id != ins_id() {
+                                rq.node.evict(id);
+                            }
+                        }
+                    }
+                }
+            }
             let unknown = statements.iter().any(|s| matches!(s, BatchStatement::Prepared { id, .. } if !rq.node.knows(id)));
             if unknown {
                 if let Some(pk) = statements.iter().find_map(|s| match s {
@@ -218,7 +236,13 @@ impl Handler for H14 {
                         md.no_metadata = true;
                     }
                 }
+                let first_page_of_paged = params.page_size.is_some() && params.paging_state.is_none();
                 rq.reply(&Response::Result(ResultBody::Rows { metadata: md, rows }));
+                if first_page_of_paged && pk % 2 == 0 {
+                    // the node forgets the statement between two pages of the same iteration: the request
+                    // for the next page is answered UNPREPARED and must be repeated WITH its paging state
+                    rq.node.evict(id);
+                }
             }
             Request::Batch { statements, .. } => {
                 if let Some(pk) = statements.iter().find_map(|s| match s {
@@ -547,6 +571,13 @@ fn judge(o: &mut Outcome, h: &Hist, r: &HistOut) {
         }
         match &op.outcome {
             Err(e) => {
+                // the driver re-prepares and repeats ONCE; if the repeat is answered UNPREPARED again (a second
+                // eviction hit the same execution) the error may surface: counted, not asserted
+                let unprepared_answers = seen.iter().filter(|s| s.answered == "UNPREPARED").count();
+                if unprepared_answers >= 2 && !op.after_id_change {
+                    o.class("evicted-twice-during-one-execution(not-asserted)");
+                    continue;
+                }
                 let explained = op.after_id_change || h.endless_unprepared;
                 if !explained {
                     o.violation("c14:caller-saw-an-error", format!("{} of pk {} failed ({e}) although every node can prepare and execute the statement", op.api, op.pk), replay.clone());
